@@ -54,24 +54,30 @@ NEEDS.update({
  "C18d": "two threads calling d2r_exp_sparse / d2r_expinv_sparse (dense fall-back, e.g. SE2, SO3, SE3) concurrently: function-local static scratch Hessian shared between threads",
  "C20d": "integrate_absolute_polynomial for a quadratic whose two real roots both lie left of the interval: lower clamp of the larger root dropped",
 })
+NEEDS.update({
+ "C13e": "BSpline::t_max() with t0 != 0 and dt != 1: (t0 + N - K) * dt instead of t0 + (N - K) * dt",
+ "C15e": "SO3 composition (and everything delegating to it) whose product has q_w in [-1e-8, 0): canonical-sign flip guarded by a tolerance",
+ "C16e": "(see README)",
+ "C19e": "dr_exp_sparse / dr_expinv_sparse for a commutative group or Bundle part at a non-zero block offset: diagonal loop starts at i0 but is bounded by a.size()",
+})
 conf = {}
-for f in ("/tmp/confirm_all.out", "/tmp/confirm_all2.out", "/tmp/confirm_all3.out", "/tmp/confirm_all4.out", "/tmp/confirm_all5.out", "/tmp/confirm_all6.out"):
+for f in ("/tmp/confirm_all.out", "/tmp/confirm_all2.out", "/tmp/confirm_all3.out", "/tmp/confirm_all4.out", "/tmp/confirm_all5.out", "/tmp/confirm_all6.out", "/tmp/confirm_all7.out"):
     if os.path.exists(f):
         for l in open(f):
-            m = re.match(r"CONFIRM (C\d+[bcd]?): demo with change exit=(\d+), without exit=(\d+)", l)
+            m = re.match(r"CONFIRM (C\d+[bcde]?): demo with change exit=(\d+), without exit=(\d+)", l)
             if m:
                 conf[m.group(1)] = (int(m.group(2)), int(m.group(3)))
 import glob as _g
 for f in _g.glob("/tmp/seed_C*/confirm_demo.txt"):
     for l in open(f):
-        m = re.match(r"CONFIRM (C\d+[bcd]?): demo with change exit=(\d+), without exit=(\d+)", l)
+        m = re.match(r"CONFIRM (C\d+[bcde]?): demo with change exit=(\d+), without exit=(\d+)", l)
         if m:
             conf.setdefault(m.group(1), (int(m.group(2)), int(m.group(3))))
 tries = {}
-for f in ("/tmp/try_all.out", "/tmp/try_all2.out", "/tmp/try_all3.out", "/tmp/try_all4.out", "/tmp/try_all5.out", "/tmp/try_all6.out", "/tmp/try_all7.out", "/tmp/try_all8.out", "/tmp/try_all9.out"):
+for f in ("/tmp/try_all.out", "/tmp/try_all2.out", "/tmp/try_all3.out", "/tmp/try_all4.out", "/tmp/try_all5.out", "/tmp/try_all6.out", "/tmp/try_all7.out", "/tmp/try_all8.out", "/tmp/try_all9.out", "/tmp/try_all10.out"):
     if os.path.exists(f):
         for l in open(f):
-            m = re.match(r"TRY seed=(C\d+[bcd]?) check=(C\d+) exit=(\d+) : (\d+) violations; (.*)", l)
+            m = re.match(r"TRY seed=(C\d+[bcde]?) check=(C\d+) exit=(\d+) : (\d+) violations; (.*)", l)
             if m:
                 tries[m.group(1)] = dict(check=m.group(2), exit=int(m.group(3)), violations=int(m.group(4)), summary=m.group(5).strip())
 for sid in sorted(NEEDS):
